@@ -25,6 +25,7 @@ def run_job(job):
     from lv import monitor
     from lv.rigs.virt import VirtRig
     cfg = job['cfg']
+    os.environ['LV_EMPTY_CTX'] = ','.join(str(t) for t in job.get('empty_ctx') or [])
     storage, tmpd = None, None
     if job.get('local_storage') and cfg['storage']:
         # the real LocalStorage instead of the in-memory one (slower; used where the storage's own code matters)
